@@ -600,7 +600,7 @@ def check_C17(ctx):
 # ---------------------------------------------------------------------------------------------------------------
 SPELLINGS = [("<", ">"), ("<!-- <", "> -->"), ("/* <", "> */"), ("// --", "-- //"), ("# <", "> #"), ("%%", "%%"),
              ("《", "》"), ("[[", "]]"), ("(*", "*)"), ("{{", "}}"), ("<?", "?>"), ("$(", ")"), ("\\begin{", "}")]
-NAME_POOL = [("tl", "rm"), ("time-limited", "removal-marker"), ("期限", "マーカー")]
+NAME_POOL = [("tl", "rm"), ("time-limited", "removal-marker"), ("期限", "マーカー"), ("TimeLimited", "RemovalMarker"), ("FIXME", "rm_v2.old")]
 
 CANON_TOS = ["2024-02-29 23:59:59", "2024-03-01 00:00:00", "2023-12-31 23:59:59", "2024-01-01 00:00:00",
              "2023-02-28 12:00:00", "2000-02-29 00:00:00", "2100-02-28 23:59:59", "1999-12-31 23:59:59",
